@@ -679,7 +679,7 @@ NOT_APPLICABLE = {
 
 # ---------------------------------------------------------------------------------------------
 def run_kani(prop, obls, tier, seed):
-    tmo = 420 if tier == "quick" else 1500
+    tmo = 900 if tier == "quick" else 2400      # the slowest quick harness needs ~170 s on an idle machine; generous because a timeout makes the check inconclusive
     return kani_engine.run_harnesses(obls, timeout_s=tmo, tag=prop)
 
 
